@@ -14,6 +14,16 @@ Static rules (DESIGN.md §C11; the units version of rule 1 is replaced by a stru
                    resolve to the abstract base that raises NotImplementedError
  spline-accumulate SplineSetEvaluator.__call__ adds `const` exactly once on every path, accumulates each
                    term with +=, into the same columns it read, with the same scale for value and gradient
+ scale-order       arbf_args lays the per-term scales out as [s0] + [s1]*C(n,1) + [s2]*C(n,2) + .. (repeat
+                   counts folded for n = 1..8), the mapper enumerates index sets by ascending size with
+                   itertools.combinations, and its constant-index reads of `scale` (scale[0] for the
+                   empty index set) are reached only by the arbf_args definition (reaching definitions),
+                   never by a shifted slice of it
+ grad-pairing      C kernels (clang AST, symbolic): a factor F = .. * exp(-(se(x1,c1) + se(x2,c2) ..)) has
+                   exponent terms {(x_k, c_k)}; each add_deriv(g, x, c, exps, F) must differentiate one of
+                   F's own terms, g must address the same channel/point as x, and every term of a factor
+                   accumulated into `out` must be differentiated.  Kernels not bound to an evaluator
+                   class (evaluate_se_kernel_spin_v2) are read too, deviations there are notes
 """
 import ast
 import os
@@ -574,6 +584,198 @@ def rule_spline(chk, prog):
 
 
 # ----------------------------------------------------------------------------
+# rule 6: order-n scale multiplies the terms of order n
+# ----------------------------------------------------------------------------
+def _comb(n, k):
+    out = 1
+    for i in range(k):
+        out = out * (n - i) // (i + 1)
+    return out
+
+
+def _fold_int(e, env):
+    """integer arithmetic on literals and the names in env (constant folding only)"""
+    if isinstance(e, ast.Constant) and isinstance(e.value, int) and not isinstance(e.value, bool):
+        return e.value
+    if isinstance(e, ast.Name):
+        return env.get(e.id)
+    if isinstance(e, ast.UnaryOp) and isinstance(e.op, ast.USub):
+        v = _fold_int(e.operand, env)
+        return None if v is None else -v
+    if isinstance(e, ast.BinOp):
+        a, b = _fold_int(e.left, env), _fold_int(e.right, env)
+        if a is None or b is None:
+            return None
+        if isinstance(e.op, ast.Add):
+            return a + b
+        if isinstance(e.op, ast.Sub):
+            return a - b
+        if isinstance(e.op, ast.Mult):
+            return a * b
+        if isinstance(e.op, ast.FloorDiv):
+            return a // b if b else None
+    return None
+
+
+def rule_scale_order(chk, prog):
+    kn, mt = prog.module(KN), prog.module(MT)
+    # (a) arbf_args lays the scales out as [s0] + [s1]*C(n,1) + [s2]*C(n,2) + ...
+    fa = kn.func("arbf_args")
+    base = fa.args.args[0].arg
+    rets = [n for n in pf.walk_no_nested(fa) if isinstance(n, ast.Return)]
+    if len(rets) != 1 or not isinstance(rets[0].value, ast.Tuple):
+        raise core.AnalysisError("arbf_args: expected a single tuple return")
+    ret_names = [pf.src(e) for e in rets[0].value.elts]
+    if "scale" not in ret_names:
+        raise core.AnalysisError("arbf_args no longer returns a local named `scale`")
+    spos = ret_names.index("scale")
+    binds = er.assigns_to(fa, "scale")
+    first = [b for b in binds if b[2] == "assign"]
+    if len(first) != 1 or not (isinstance(first[0][1], ast.List) and len(first[0][1].elts) == 1
+                               and pf.src(first[0][1].elts[0]) == "%s.scale[0]" % base):
+        raise core.AnalysisError("arbf_args: `scale` is no longer initialised as [%s.scale[0]]" % base)
+    ndim_name = None
+    for st, v, k in er.assigns_to(fa, "ndim"):
+        ndim_name = "ndim"
+    blocks = [b for b in binds if b[2] == "aug"]
+    expect = 1
+    for st, v, k in sorted(blocks, key=lambda b: b[0].lineno):
+        inst = "arbf_args: order-%d scale repeated C(ndim, %d) times" % (expect, expect)
+        ok = isinstance(st.op, ast.Add) and isinstance(v, ast.BinOp) and isinstance(v.op, ast.Mult) \
+            and isinstance(v.left, ast.List) and len(v.left.elts) == 1
+        if not ok:
+            raise core.AnalysisError("arbf_args: unrecognised scale block `%s`" % pf.src(st))
+        elt = v.left.elts[0]
+        idx = elt.slice.value if (isinstance(elt, ast.Subscript) and isinstance(elt.slice, ast.Constant)
+                                  and pf.src(elt.value) == "%s.scale" % base) else None
+        counts = []
+        for nd in range(1, 9):
+            c = _fold_int(v.right, {ndim_name or "ndim": nd})
+            if c is None:
+                raise core.AnalysisError("arbf_args: cannot fold the repeat count `%s`" % pf.src(v.right))
+            counts.append(c)
+        want = [_comb(nd, expect) for nd in range(1, 9)]
+        guard = [pf.src(t) for t, pol, kk in cfgm.conditions_at(st) if pol]
+        if idx != expect or counts != want or ("order > %d" % (expect - 1)) not in guard:
+            chk.violation("scale-order", KN, "arbf_args", pf.src(st), st.lineno,
+                          "the %d-th block of the per-term scale list must be [%s.scale[%d]] * C(ndim, %d) under "
+                          "`order > %d` (one entry per index set of size %d, in itertools.combinations order); found "
+                          "scale index %r, counts %s for ndim=1..8 (expected %s), guards %s"
+                          % (expect, base, expect, expect, expect - 1, expect, idx, counts, want, guard), instance=inst)
+        else:
+            chk.ok("scale-order", inst)
+        expect += 1
+    if expect < 3:
+        raise core.AnalysisError("arbf_args: fewer than two order blocks found")
+    # (b)+(c) the mapper enumerates index sets by ascending size and uses scale[0] for the empty set
+    fm = mt.func("get_mapped_gp_evaluator_additive")
+    g = cfgm.CFG(fm)
+    unpack = []
+    for st, v, k in er.assigns_to(fm, "scale"):
+        if k == "unpack" and isinstance(v, ast.Call) and pf.call_name(v) == "arbf_args":
+            tgt = st.targets[0]
+            pos = [i for i, e in enumerate(tgt.elts) if isinstance(e, ast.Name) and e.id == "scale"]
+            if pos != [spos]:
+                chk.violation("scale-order", MT, "get_mapped_gp_evaluator_additive", pf.src(st), st.lineno,
+                              "`scale` is unpacked from position %s of arbf_args(...), which returns it at position %d"
+                              % (pos, spos))
+            unpack.append(st)
+    if not unpack:
+        raise core.AnalysisError("the additive mapper no longer takes `scale` from arbf_args")
+    loops = [n for n in pf.walk_no_nested(fm) if isinstance(n, ast.For) and isinstance(n.iter, ast.Call)
+             and pf.call_name(n.iter) == "combinations"]
+    if len(loops) != 1:
+        raise core.AnalysisError("the additive mapper: expected one loop over itertools.combinations")
+    inner = loops[0]
+    outer = pf.parent(inner)
+    inst = "additive mapper enumerates index sets by ascending order"
+    if isinstance(outer, ast.For) and isinstance(outer.target, ast.Name) and pf.src(outer.iter) == "range(order + 1)" \
+            and len(inner.iter.args) == 2 and pf.src(inner.iter.args[1]) == outer.target.id:
+        chk.ok("scale-order", inst, detail="for %s in %s: for ... in %s" % (outer.target.id, pf.src(outer.iter),
+                                                                        pf.src(inner.iter)))
+    else:
+        chk.violation("scale-order", MT, "get_mapped_gp_evaluator_additive", pf.src(inner.iter), inner.lineno,
+                      "index sets must be generated as `for o in range(order + 1): combinations(<dims>, o)` to match "
+                      "the layout of arbf_args' scale list")
+    # reads of scale[<const>] inside the term loop
+    uses = []
+    for n in ast.walk(outer if isinstance(outer, ast.For) else inner):
+        if isinstance(n, ast.Subscript) and isinstance(n.value, ast.Name) and n.value.id == "scale" \
+                and isinstance(n.ctx, ast.Load) and isinstance(n.slice, ast.Constant):
+            uses.append(n)
+    if not uses:
+        raise core.AnalysisError("the additive mapper no longer reads scale[0] for the constant term")
+    for u in uses:
+        node = g.stmt_of_expr(u)
+        st = node.ast
+        conds = [pf.src(t) for t, pol, k in cfgm.conditions_at(st) if pol]
+        inst = "additive mapper: `%s` refers to arbf_args' layout" % pf.src(st)[:60]
+        rd = er.reaching_defs(g, "scale", node)
+        foreign = [d for d in rd if d is None or d.ast not in unpack]
+        if foreign:
+            d = foreign[0]
+            chk.violation("scale-order", MT, "get_mapped_gp_evaluator_additive", pf.src(st), st.lineno,
+                          "`%s` is meant to pick entry %d of the scale list laid out by arbf_args (entry 0 = order-0 "
+                          "scale for the empty index set), but `scale` may have been rebound by `%s` (line %s) before "
+                          "this read, which shifts every position" % (
+                              pf.src(u), u.slice.value, pf.src(d.ast) if d is not None else "<unbound>",
+                              d.ast.lineno if d is not None else "?"), instance=inst)
+        elif u.slice.value == 0 and not any("len(" in c and "== 0" in c for c in conds):
+            chk.violation("scale-order", MT, "get_mapped_gp_evaluator_additive", pf.src(st), st.lineno,
+                          "scale[0] (order-0 scale) is used outside the empty-index-set branch", instance=inst)
+        else:
+            chk.ok("scale-order", inst)
+
+
+# ----------------------------------------------------------------------------
+# rule 5: gradient pairing in the C kernels
+# ----------------------------------------------------------------------------
+def rule_grad_pairing(chk, prog, tree):
+    xe = prog.module(XE)
+    bound = {}
+    for cname, cls in xe.classes.items():
+        v = pf.class_attrs(cls).get("_fn")
+        if isinstance(v, ast.Attribute):
+            bound[v.attr] = cname
+    if len(bound) < 3:
+        raise core.AnalysisError("fewer than 3 evaluator classes bind a native kernel through `_fn`")
+    tu = cfacts.TU(tree, MU_C)
+    for b in bound:
+        tu.func(b)  # vanished anchor => AnalysisError
+    kernels = sorted(set(bound) | {f for f in tu.funcs if f.startswith("evaluate_se_kernel")})
+    for fn in kernels:
+        r = er.c_grad_pairing(tu, fn)
+        live = fn in bound
+        who = "%s (used by %s)" % (fn, bound[fn]) if live else "%s (not bound to any evaluator class)" % fn
+        if not r["calls"]:
+            raise core.AnalysisError("%s: no gradient helper call found" % fn)
+        for line, text, ok, why in r["calls"]:
+            inst = "%s: %s pairs the gradient with a term of its factor" % (fn, text[:90])
+            if ok:
+                chk.ok("grad-pairing", inst)
+            elif live:
+                chk.violation("grad-pairing", MU_C_REL, fn, text, line,
+                              "%s: the returned gradient is not the gradient of the returned value" % why,
+                              instance=inst)
+            else:
+                chk.ok("grad-pairing", inst + " [dead code, noted]", nontrivial=False)
+                chk.note("grad-pairing", "%s:%s" % (MU_C_REL, fn),
+                         "line %d `%s`: %s. The function is exported but no evaluator class binds it, so this is "
+                         "unreachable from Python today" % (line, text[:80], why))
+        inst = "%s: every exponent term of the accumulated factors is differentiated" % fn
+        if r["missing"] and live:
+            line, text, term = r["missing"][0]
+            chk.violation("grad-pairing", MU_C_REL, fn, "%s: %s" % (text, term), line,
+                          "the factor accumulated by `%s` depends on %s, but no gradient helper call differentiates "
+                          "that term: the gradient misses a contribution" % (text, term), instance=inst)
+        elif r["missing"]:
+            chk.ok("grad-pairing", inst + " [dead code, noted]", nontrivial=False)
+        else:
+            chk.ok("grad-pairing", inst, detail="%d term(s)" % r["n_terms"])
+    chk.count("C kernels read", len(kernels))
+
+
+# ----------------------------------------------------------------------------
 def _analyse_own(chk):
     tree = chk.tree
     prog = pf.Program(tree, [KN, MT, XE])
@@ -585,6 +787,14 @@ def _analyse_own(chk):
     chk.guard(rule_rbf_extract, prog, tree)
     chk.guard(rule_dispatch, prog)
     chk.guard(rule_spline, prog)
+    chk.rule("scale-order", "arbf_args lays out one scale per index set by ascending order; the mapper reads that "
+                            "layout unshifted")
+    chk.guard(rule_scale_order, prog)
+    chk.floor("scale-order", 5, "3 order blocks of arbf_args + loop order + scale[0] read")
+    chk.rule("grad-pairing", "C kernels: each gradient call differentiates a term of the factor it is given, in the "
+                             "matching channel, and no term is left out")
+    chk.guard(rule_grad_pairing, prog, tree)
+    chk.floor("grad-pairing", 9, "6 gradient calls + 3 completeness obligations in the 3 bound kernels")
     chk.floor("k0-factor", 3, "3 additive kernels, each compared with its _eval and _train factor")
     chk.floor("rbf-extract", 40, "locals of 8 extraction/mapping functions + _exps + C quadratic form")
     chk.floor("dispatch-total", 5, "3 subset additive kernel classes + type split + grid ladder")
@@ -602,8 +812,19 @@ def _analyse_own(chk):
 
 def analyse(chk):
     _analyse_own(chk)
+    chk.guard(lambda c_: core.include_findings(c_, 'C09', files=['ciderpress/dft/xc_evaluator'], rules=['hidden-write'],
+                                               why='a mapped evaluator that rescales the model\'s own weight array in place changes the function it was mapped from'))
     chk.guard(lambda c_: core.include_findings(c_, 'C10', files=['ciderpress/lib/mod_cider/model_utils.c'], rules=None,
                                                why='a data race in the C evaluators breaks agreement with the kernel sum'))
+
+
+def _shift_scale_early(text):
+    late = "    if len(sinds) == 0:\n        scale = scale[1:]\n        return scale, ind_sets, spline_grids, coeff_sets, const\n"
+    anchor = "    D = X[:, inds]\n    N = D.shape[1]\n    for i in range(N):\n        density = srbf_density"
+    if text.count(late) != 1 or text.count(anchor) != 1:
+        return None
+    text = text.replace(late, "    if len(sinds) == 0:\n        return scale, ind_sets, spline_grids, coeff_sets, const\n")
+    return text.replace(anchor, "    if len(sinds) == 0:\n        scale = scale[1:]\n" + anchor)
 
 
 def mutants(tree):
@@ -641,6 +862,28 @@ def mutants(tree):
                expect="dispatch-total"),
         Mutant("grid projection: else raise removed", MT, "    else:\n        raise ValueError(\"Order too high!\")\n", "",
                expect="dispatch-total"),
+        Mutant("spin kernel: beta gradient of the direct term around the alpha control point", MU_C_REL,
+               "_add_deriv(outd_b + iloc, xin_b + iloc, xctrl_b + cloc, exps, aabb,",
+               "_add_deriv(outd_b + iloc, xin_b + iloc, xctrl_a + cloc, exps, aabb,", expect="grad-pairing"),
+        Mutant("spin kernel: exchange-term gradient accumulated into the other channel", MU_C_REL,
+               "_add_deriv(outd_a + iloc, xin_a + iloc, xctrl_b + cloc, exps, abba,",
+               "_add_deriv(outd_b + iloc, xin_a + iloc, xctrl_b + cloc, exps, abba,", expect="grad-pairing"),
+        Mutant("spin kernel: one gradient contribution dropped", MU_C_REL,
+               "            _add_deriv(outd_a + iloc, xin_a + iloc, xctrl_b + cloc, exps, abba,\n                       nfeat);\n",
+               "", expect="grad-pairing"),
+        Mutant("plain kernel: gradient taken with the antisym offsets", MU_C_REL,
+               "_add_deriv(outd + iloc, xin + iloc, xctrl + cloc, exps, tot, nfeat);",
+               "_add_deriv(outd + iloc, xin + iloc, xctrl + iloc, exps, tot, nfeat);", expect="grad-pairing"),
+        Mutant("mapper: scale shifted before the constant term is formed", MT, fn=_shift_scale_early,
+               expect="scale-order"),
+        Mutant("arbf_args: order-2 block uses the order-1 scale", KN,
+               "scale += [arbf_base.scale[2]] * (ndim * (ndim - 1) // 2)\n    if order > 2:",
+               "scale += [arbf_base.scale[1]] * (ndim * (ndim - 1) // 2)\n    if order > 2:", expect="scale-order"),
+        Mutant("arbf_args: order-2 block has ndim*(ndim+1)/2 entries", KN,
+               "scale += [arbf_base.scale[2]] * (ndim * (ndim - 1) // 2)\n    if order > 2:",
+               "scale += [arbf_base.scale[2]] * (ndim * (ndim + 1) // 2)\n    if order > 2:", expect="scale-order"),
+        Mutant("mapper: index sets enumerated by descending order", MT, "for o in range(order + 1):",
+               "for o in range(order, -1, -1):", expect="scale-order"),
         Mutant("spline gradient overwritten", XE, "dres[:, ind_set] += dy * self.scale[t]", "dres[:, ind_set] = dy * self.scale[t]",
                expect="spline-accumulate"),
         Mutant("spline const added inside the term loop", XE,
